@@ -415,6 +415,14 @@ type verifC19Env struct {
 	liveText     string
 	liveClass    string // generator class
 	liveMustFail string // "" | syntax | policy-type | missing | dir
+	last         verifC19Last
+}
+
+// verifC19Last is what the last reload step found out about its parts.
+type verifC19Last struct {
+	confLoaded bool  // ParseConfig returned no error (and the file is not unloadable by construction)
+	subErr     error // result of the repository's own subnets loader on the file
+	geoFailed  bool  // geoip.New on the new configuration returns a real error (not the tolerated ErrMissingDB)
 }
 
 type verifC19Fresh struct {
@@ -727,6 +735,22 @@ func (e *verifC19Env) enforce(rc *RegConfig, text, class, where string) {
 			blockP = append(blockP, p)
 		}
 	}
+	// domain patterns of the file, compiled here only to SKIP "must admit" witnesses whose host text a
+	// configured pattern matches (such a covert is legitimately refused by the pattern list)
+	var domRe []*regexp.Regexp
+	for _, d := range l.Dom {
+		if re, err := regexp.Compile(d); err == nil {
+			domRe = append(domRe, re)
+		}
+	}
+	domMatch := func(host string) bool {
+		for _, re := range domRe {
+			if re.MatchString(host) {
+				return true
+			}
+		}
+		return false
+	}
 	// an entry that is not in force: unparsable-as-written entries keep the old signature family, a
 	// well-formed entry that vanished gets its own
 	dropSig := func(list, entry, cls string) string {
@@ -822,6 +846,10 @@ func (e *verifC19Env) enforce(rc *RegConfig, text, class, where string) {
 				e.rec.Count("witness_skipped_allowlist_precedence", 1)
 				continue
 			}
+			if domMatch(w.String()) {
+				e.rec.Count("witness_skipped_domain_pattern", 1)
+				continue
+			}
 			covert := net.JoinHostPort(w.String(), "443")
 			out, _ := rc.ParseOrResolveBlocklisted(covert)
 			e.rec.Count("witness_checks", 1)
@@ -913,9 +941,18 @@ func (e *verifC19Env) enforce(rc *RegConfig, text, class, where string) {
 		covert := net.JoinHostPort(host, "443")
 		out, _ := rc.ParseOrResolveBlocklisted(covert)
 		if out != "" {
-			viol("enforce:domain-not-refused", fmt.Sprintf("host %q matches covert_blocklist_domains pattern %q of an accepted configuration, yet it is admitted as %q", host, d, out),
+			sig := "enforce:domain-not-refused"
+			if _, err := netip.ParseAddr(host); err == nil {
+				// the pattern matches the text of an address literal (e.g. `^169\.254\.`): the covert host is that literal
+				sig = "enforce:domain-not-refused:address-literal"
+				e.rec.Count("domain_literal_witness_admitted", 1)
+			}
+			viol(sig, fmt.Sprintf("host %q matches covert_blocklist_domains pattern %q of an accepted configuration, yet it is admitted as %q", host, d, out),
 				map[string]interface{}{"pattern": d, "witness": covert, "admitted_as": out})
 			continue
+		}
+		if _, err := netip.ParseAddr(host); err == nil {
+			e.rec.Count("domain_literal_witness_refused", 1)
 		}
 		e.rec.Count("witness_refused", 1)
 	}
@@ -1039,6 +1076,7 @@ func (e *verifC19Env) reload(st *verifC19Station, step kit.C19Reload, idx int) b
 		geoFailed = gerr != nil && !errors.Is(gerr, geoip.ErrMissingDB)
 	}
 	confFailed := err != nil || confClass != ""
+	e.last = verifC19Last{confLoaded: !confFailed, subErr: subErr, geoFailed: geoFailed}
 
 	polAfter, pp := verifC19Policy(st.rm.RegConfig)
 	selAfter, sp := verifC19Select(st.rm.PhantomSelector)
@@ -1089,11 +1127,25 @@ func (e *verifC19Env) reload(st *verifC19Station, step kit.C19Reload, idx int) b
 		e.rec.Count("reload_ok_config", 1)
 		polNew, _ := verifC19Policy(newConf.RegConfig)
 		allOK := subErr == nil && !geoFailed
+		// the parts are independent: a part that loaded without error is replaced by its new version
+		// even when another part of the same reload failed (that other part keeps its previous version)
+		var failedParts []string
+		if subErr != nil {
+			failedParts = append(failedParts, "subnets")
+		}
+		if geoFailed {
+			failedParts = append(failedParts, "geoip")
+		}
+		failed := strings.Join(failedParts, "+")
 		switch {
 		case verifC19Same(polAfter, polNew):
 		case allOK:
 			e.rec.Violation("reload:success-not-applied:policy", "every part of the reload loaded without error but the policy decisions are not those of the new configuration",
 				detail(map[string]interface{}{"changed_vs_new": verifC19Diff(polNew, polAfter)}))
+		case verifC19Same(polAfter, polBefore):
+			e.rec.Violation("reload:loaded-part-not-installed:policy:failed="+failed,
+				"the address policies of the reloaded configuration loaded without error, but because another part of the same reload failed ("+failed+") the previous policies are still in force",
+				detail(map[string]interface{}{"failed_parts": failed, "changed_vs_new": verifC19Diff(polNew, polAfter), "subnets_load_error": fmt.Sprint(subErr), "geoip_failed": geoFailed}))
 		case !verifC19Same(polAfter, polBefore):
 			e.rec.Violation("reload:mixed-policy", "after a partially failed reload the policy decisions are neither the old nor the new version",
 				detail(map[string]interface{}{"changed_vs_old": verifC19Diff(polBefore, polAfter), "changed_vs_new": verifC19Diff(polNew, polAfter)}))
@@ -1111,6 +1163,10 @@ func (e *verifC19Env) reload(st *verifC19Station, step kit.C19Reload, idx int) b
 			case allOK:
 				e.rec.Violation("reload:success-not-applied:selection", "every part of the reload loaded without error but phantom selections are not those of the new subnets file",
 					detail(map[string]interface{}{"changed_vs_new": verifC19Diff(selNew, selAfter)}))
+			case verifC19Same(selAfter, selBefore):
+				e.rec.Violation("reload:loaded-part-not-installed:selection:failed="+failed,
+					"the phantom subnets file ("+filepath.Base(e.curSub)+") loaded without error, but because another part of the same reload failed ("+failed+") the previous phantom subnets are still in force",
+					detail(map[string]interface{}{"failed_parts": failed, "changed_vs_new": verifC19Diff(selNew, selAfter)}))
 			case !verifC19Same(selAfter, selBefore):
 				e.rec.Violation("reload:selection-neither-old-nor-new", "after a partially failed reload the phantom selections are neither the old nor the new ones",
 					detail(map[string]interface{}{"changed_vs_old": verifC19Diff(selBefore, selAfter)}))
@@ -1125,10 +1181,15 @@ func (e *verifC19Env) reload(st *verifC19Station, step kit.C19Reload, idx int) b
 		if allOK {
 			e.rec.Count("reload_fully_ok", 1)
 		}
+		// the configuration part loaded: its entries have to be in force now, whatever happened to the other parts
+		where := fmt.Sprintf("reload step %d", idx)
+		if failed != "" {
+			where += " (configuration part loaded; failed part of the same reload: " + failed + ")"
+		}
 		if verifC19Same(polAfter, polNew) {
 			st.text = newText
-			e.enforce(st.rm.RegConfig, newText, cfgClass, fmt.Sprintf("reload step %d", idx))
 		}
+		e.enforce(st.rm.RegConfig, newText, cfgClass, where)
 	}
 	if st.rm.GeoIP == nil {
 		e.rec.Violation("reload:geoip-nil", "after a reload the manager's GeoIP handle is nil (every later lookup dereferences it)", detail(map[string]interface{}{}))
@@ -1287,6 +1348,8 @@ func TestVerifC19Config(t *testing.T) {
 	for k, v := range outcomes {
 		rec.Count("startup."+k, v)
 	}
+	// part-wise reloads: every step changes all parts while one of them is broken (zz_verif_c19_parts_test.go)
+	verifC19PartReloads(e)
 	rec.Exhaustive(fmt.Sprintf("single-key variations of the base configuration: every key × every state (%d files), plus base and shipped file", nSingles-2))
 	rec.Note("a start-up rejection WITH AN ERROR is never a violation; a start-up panic is charged only if the file also panics on reload")
 }
